@@ -340,7 +340,8 @@ pub fn get_best_move_entry(
         return Some((moves.first().copied(), 0, true));
     }
 
-    let mut killer_moves = [None; 32];
+    // One slot per possible value of `real_depth`
+    let mut killer_moves = [None; 256];
     let mut best_move = None;
     let mut best_score = Score::MIN + 1;
 
